@@ -19,6 +19,7 @@
 -/
 import Tranp.Str
 import Tranp.Model.AstPath
+import Tranp.Generated.DeclMatchers
 
 namespace Tranp.Classify
 open Tranp Tranp.AstPath
@@ -151,52 +152,56 @@ deriving DecidableEq, Repr
 def NameFeat.parentTag (f : NameFeat) : Option Str := fromEnd f.tags 2
 def NameFeat.lastTag (f : NameFeat) : Option Str := fromEnd f.tags 1
 
-def isClassOrThis (t : Str) : Bool := t == c!"cls" || t == c!"self"
+/-- the string constants of `DeclableMatcher` are generated (`Generated/DeclMatchers.lean`, translate/gen_decl_matchers.py, which
+    also pins the logic of every method by the digest of its skeleton); the predicates below are that logic over them -/
+def isClassOrThis (t : Str) : Bool := Generated.DeclMatchers.localExcluded.contains t
 
-/-- `DeclableMatcher.is_decl_local_var` (`primary.py:810-831`) -/
+/-- `[a, b]` are the last two elements of `parents` -/
+def endsWith2 (parents : List Str) (a b : Str) : Bool := fromEnd parents 2 == some a && fromEnd parents 1 == some b
+
+/-- `DeclableMatcher.is_decl_local_var` (`primary.py`) -/
 def isDeclLocalVar (f : NameFeat) : Bool :=
-  let byNameOnly := [c!"for_namelist", c!"except_clause", c!"with_item", c!"lambdaparams"].any (fun t => f.parentTag == some t)
-  if byNameOnly && f.lastTag == some (c!"name") then true
+  let byNameOnly := Generated.DeclMatchers.nameOnlyParents.any (fun t => f.parentTag == some t)
+  if byNameOnly && f.lastTag == some Generated.DeclMatchers.nameTag then true
   else
     -- `de_identify().shift(-1).elements[-2:]`
     let parents := f.tags.dropLast
-    let inDeclVar := match fromEnd parents 2, fromEnd parents 1 with
-      | some a, some b => (a == c!"assign" || a == c!"anno_assign") && b == c!"assign_namelist"
-      | _, _ => false
+    let inDeclVar := Generated.DeclMatchers.localAssigns.any (fun a => endsWith2 parents a Generated.DeclMatchers.localNamelist)
     inDeclVar && !isClassOrThis f.tokens && dsnElemCounts f.tokens == 1
 
-def isParamClass (f : NameFeat) : Bool := f.parentTag == some (c!"typedparam") && f.tokens == c!"cls"
-def isParamThis (f : NameFeat) : Bool := f.parentTag == some (c!"typedparam") && f.tokens == c!"self"
-def isParam (f : NameFeat) : Bool := f.parentTag == some (c!"typedparam") && !isClassOrThis f.tokens
-def inDeclClassType (f : NameFeat) : Bool := f.parentTag == some (c!"class_def_raw") || f.parentTag == some (c!"function_def_raw")
-def inDeclImport (f : NameFeat) : Bool := f.parentTag == some (c!"import_as_name")
+def isParamClass (f : NameFeat) : Bool := f.parentTag == some Generated.DeclMatchers.paramParent && f.tokens == Generated.DeclMatchers.clsWord
+def isParamThis (f : NameFeat) : Bool := f.parentTag == some Generated.DeclMatchers.paramParent && f.tokens == Generated.DeclMatchers.selfParamWord
+def isParam (f : NameFeat) : Bool :=
+  f.parentTag == some Generated.DeclMatchers.paramParent && !(f.tokens == Generated.DeclMatchers.clsWord || f.tokens == Generated.DeclMatchers.selfParamWord)
+def inDeclClassType (f : NameFeat) : Bool := Generated.DeclMatchers.classTypeParents.any (fun t => f.parentTag == some t)
+def inDeclImport (f : NameFeat) : Bool := f.parentTag == some Generated.DeclMatchers.importParent
 def isArgumentLabel (f : NameFeat) : Bool := f.parentTag == some (c!"argvalue")
 
-/-- `DeclableMatcher.is_decl_class_var` (`primary.py:704-716`; `endswith` on the joined parent path = its last two tags) -/
+/-- `DeclableMatcher.is_decl_class_var` (`endswith` on the joined parent path = its last two tags) -/
 def isDeclClassVar (f : NameFeat) : Bool :=
   let parents := f.tags.dropLast
-  match fromEnd parents 2, fromEnd parents 1 with
-  | some a, some b => (a == c!"class_var_assign" || a == c!"class_var_anno_assign") && b == c!"assign_namelist"
-  | _, _ => false
+  Generated.DeclMatchers.classVarParents.any fun pat => match pat with
+    | [a, b] => endsWith2 parents a b
+    | _ => false
 
-/-- `DeclableMatcher.is_decl_this_var_forward` (`primary.py:718-742`) -/
+/-- `DeclableMatcher.is_decl_this_var_forward` -/
 def isDeclThisVarForward (f : NameFeat) : Bool :=
   match fromEnd f.tags 5 with
   | none => false
   | some t5 =>
-    if !Str.startsWith t5 (c!"class_def_raw") then false
+    if !Str.startsWith t5 Generated.DeclMatchers.forwardScope then false
     else
-      let actual := lastIndexOf f.tags (c!"class_def_raw")
+      let actual := lastIndexOf f.tags Generated.DeclMatchers.forwardScope
       let expect : Int := (f.tags.length - 5 : Nat)
-      let inDeclVar := fromEnd f.tags 3 == some (c!"anno_assign") && fromEnd f.tags 2 == some (c!"assign_namelist")
+      let inDeclVar := fromEnd f.tags 3 == some Generated.DeclMatchers.forwardAssign && fromEnd f.tags 2 == some Generated.DeclMatchers.forwardNamelist
       inDeclVar && actual == expect && dsnElemCounts f.tokens == 1 && f.receiver
 
-/-- `DeclableMatcher.in_decl_alt_class_type` (`primary.py:845-861`) -/
+/-- `DeclableMatcher.in_decl_alt_class_type` -/
 def inDeclAltClassType (f : NameFeat) : Bool :=
-  if f.parentTag != some (c!"assign_namelist") then false
+  if f.parentTag != some Generated.DeclMatchers.altNamelist then false
   else
     let expect : Int := (f.tags.length : Int) - 3
-    lastIndexOf f.tags (c!"class_assign") == expect || lastIndexOf f.tags (c!"template_assign") == expect
+    Generated.DeclMatchers.altAssigns.any fun t => lastIndexOf f.tags t == expect
 
 inductive NameClass where
   | argumentLabel | declClassParam | declThisParam | declParam | declLocalVar | typesName | importName
@@ -280,19 +285,19 @@ def isDeclThisVar (root : Entry) (p : Path) (e : Entry) : Except CErr Bool :=
   match fromEnd tags 5 with
   | none => .ok false
   | some t5 =>
-    if !Str.startsWith t5 (c!"function_def_raw") then .ok false
+    if !Str.startsWith t5 Generated.DeclMatchers.thisScope then .ok false
     else
       -- `via_full_path.shift(-5).joined('function_def_raw.name')` then `query_raw(...)[0]`
       -- (the root element is not part of `p`; `elems[-5]` is not the root, so 5 ≤ |p|)
-      match if p.length < 5 then none else (pluckRel (p.take (p.length - 5)) root).bind (fun fd => (byTags fd [c!"function_def_raw", c!"name"]).toOption) with
+      match if p.length < 5 then none else (pluckRel (p.take (p.length - 5)) root).bind (fun fd => (byTags fd Generated.DeclMatchers.thisNamePath).toOption) with
       | none => .error .nodeNotFound
       | some nm =>
         match (values nm).head? with
         | none => .error .indexError
         | some methodName =>
           let toks := tokens e
-          let inDeclVar := (fromEnd tags 3 == some (c!"assign") || fromEnd tags 3 == some (c!"anno_assign")) && fromEnd tags 2 == some (c!"assign_namelist")
-          .ok (methodName == c!"__init__" && inDeclVar && (dsnElemCounts toks == 2 && (dsnElements toks).head? == some (c!"self")) && isReceiver p)
+          let inDeclVar := Generated.DeclMatchers.thisAssigns.any (fun a => fromEnd tags 3 == some a) && fromEnd tags 2 == some Generated.DeclMatchers.thisNamelist
+          .ok (methodName == Generated.DeclMatchers.ctorName && inDeclVar && (dsnElemCounts toks == 2 && (dsnElements toks).head? == some Generated.DeclMatchers.selfWord) && isReceiver p)
 
 /-- `Terminal.match_terminal(via, allow_tags)` for a `number` entry: every token below carries an allowed terminal name -/
 def numberTerminals (e : Entry) (allow : List Str) : Bool := e.children.all fun c => allow.contains c.name
